@@ -13,6 +13,6 @@ echo "== demo with change"; (bash -c "$demo_cmd" >/tmp/seed-$id-demo-with.log 2>
 tail -5 /tmp/seed-$id-demo-with.log >> $out/demo_with_change.txt
 echo "== demo without change"; git -C $wt apply -R $out/patch.diff; (bash -c "$demo_cmd" >/tmp/seed-$id-demo-without.log 2>&1; echo "exit=$?") | tee $out/demo_without_change.txt; git -C $wt apply $out/patch.diff
 echo "== suite with change (packages other than seed_demo)"; go test -vet=off -count=1 $(go list ./... | grep -v "seed_demo\|seed_out") 2>&1 | grep "^ok\|^FAIL\|^--- FAIL\|^panic" | tail -40 | tee $out/suite_tail.txt
-echo "== our check"; /verif/lib/mutest.py $pid $wt > $out/check_output.txt 2>&1; head -4 $out/check_output.txt
+echo "== our check"; MUTEST_SNAPSHOT=1 /verif/lib/mutest.py $pid $wt > $out/check_output.txt 2>&1; head -4 $out/check_output.txt
 cp -r $wt/seed_out/* $out/ 2>/dev/null; [ -d $wt/seed_demo ] && cp -r $wt/seed_demo $out/ 
 echo done $id
